@@ -1,7 +1,10 @@
 package node
 
 import (
+	"context"
 	"fmt"
+
+	"github.com/NethermindEth/juno/pruner"
 
 	"github.com/cockroachdb/pebble/v2/vfs"
 
@@ -87,14 +90,33 @@ func C05(c *sim.Ctx) {
 		var desc string
 		var apply func() error
 		var onOK func()
-		op := t.Draw("op", 12)
+		op := t.Draw("op", 14)
+		isPrune := false
 		switch {
+		case op >= 12 && len(m.Chain) >= 2:
+			// prune every block below a target (exclusive), in tiny batches so that a sweep is several
+			// commits; the node keeps the blocks at and above the target
+			head := m.Head().B.Number
+			target := uint64(1 + t.Draw("prune.target", int(head)))
+			bytes := 1 + t.Draw("prune.batch.bytes", 300)
+			isPrune = true
+			desc = fmt.Sprintf("prune below block %d (batch %dB)", target, bytes)
+			apply = func() error {
+				_, _, err := pruner.PruneUpto(context.Background(), n.FDB, target, bytes)
+				return err
+			}
+			onOK = func() {
+				if target > m.Floor {
+					m.Floor = target
+				}
+				c.Fault("prune")
+			}
 		case op <= 5 || len(m.Chain) == 0:
 			b := d.next(m.Head())
 			desc = fmt.Sprintf("store block %d v%s diff=%s", b.B.Number, b.Version, diffString(b))
 			apply = func() error { return n.StoreBlock(b) }
 			onOK = func() { m.Chain = append(m.Chain, b) }
-		case op <= 7:
+		case op <= 7 && m.Head().B.Number > m.Floor:
 			h := m.Head()
 			desc = fmt.Sprintf("revert block %d", h.B.Number)
 			apply = func() error { return n.BC.RevertHead() }
@@ -155,11 +177,15 @@ func C05(c *sim.Ctx) {
 			}
 			n.FDB.Fired = nil
 			c.Logf("op %d failed with the injected error", i)
-			// (a) nothing was applied
+			// (a) nothing was applied (a prune is a sequence of batches by design: its earlier
+			// batches stay applied, and the floor it was entitled to is the reference from here on)
+			if isPrune {
+				onOK()
+			}
 			imgAfter, ierr := faultdb.Image(n.FDB.Inner)
 			c.Must(ierr, "image after failed op")
 			oa, ob, ch := faultdb.Diff(imgBefore, imgAfter, 5)
-			if len(oa)+len(ob)+len(ch) > 0 {
+			if !isPrune && len(oa)+len(ob)+len(ch) > 0 {
 				c.Fail("failed_write_applied", opKind(desc), "after the failed %q the database differs from before (removed=%d added=%d changed=%d keys)", desc, len(oa), len(ob), len(ch))
 			}
 			// (b) the running node (caches included) still behaves like the model before the op
@@ -174,7 +200,9 @@ func C05(c *sim.Ctx) {
 			if rerr != nil {
 				c.Fail("retry_after_failed_write_fails", opKind(desc), "retry of %q after an injected write failure: %v", desc, rerr)
 			}
-			onOK()
+			if !isPrune {
+				onOK()
+			}
 		default:
 			c.Fail("valid_op_failed", opKind(desc), "%q failed: %v", desc, err)
 		}
@@ -239,7 +267,7 @@ func C05(c *sim.Ctx) {
 }
 
 func opKind(desc string) string {
-	for _, k := range []string{"store", "revert", "set L1", "persist", "graceful", "ungraceful"} {
+	for _, k := range []string{"store", "revert", "set L1", "persist", "graceful", "ungraceful", "prune"} {
 		if len(desc) >= len(k) && desc[:len(k)] == k {
 			return k
 		}
